@@ -29,6 +29,15 @@ def gen_cases(ck):
                       "fit": ["dlite", "taubinSVD"][int(ck.rng.integers(2))], "nvariants": 3 if ck.tier == "quick" else 5,
                       "angle_limit": float(ck.rng.uniform(0.7, 0.95) * math.pi)})
     for i in range(4 if ck.tier == "quick" else 24):
+        # a cell with all its neighbours plus one cell hanging by a single interface (it touches no internal interface): stored last
+        # in the reference storage, first in every second variant
+        mob = bool(i % 2)
+        cases.append({"type": "tissue", "seed": int(ck.rng.integers(1 << 30)), "tissue": ["random", "jitter", "hex"][i % 3], "sites": int(ck.rng.integers(30, 50)),
+                      "subset": None, "flower": True, "flower_plus": True, "hang_first": True, "min_ridge": 0.005, "mobius": mob,
+                      "strength": float(ck.rng.uniform(0.4, 1.5)), "kmin": 2 if mob else 0, "kmax": 5, "param_mode": "random",
+                      "angle": float(ck.rng.uniform(0, 6.28)), "scale": float(10.0 ** ck.rng.uniform(-1, 1)), "fit": ["dlite", "taubinSVD"][i % 2],
+                      "nvariants": 4 if ck.tier == "quick" else 6})
+    for i in range(4 if ck.tier == "quick" else 24):
         # tissues with junctions where four cells meet (which of the four interfaces a junction lists first depends on the storage)
         mob = bool(i % 2)
         cases.append({"type": "tissue", "seed": int(ck.rng.integers(1 << 30)), "tissue": ["quad", "quad2"][(i // 2) % 2], "sites": int(ck.rng.integers(18, 40)),
